@@ -193,6 +193,7 @@ var (
 	litSl8   = eLit{"[8]", func() interface{} { return []interface{}{int64(8)} }}
 	litSl1   = eLit{"[1]", func() interface{} { return []interface{}{int64(1)} }}
 	litSl89  = eLit{"[8, 9]", func() interface{} { return []interface{}{int64(8), int64(9)} }}
+	litSl7z  = eLit{"[7, \"z\"]", func() interface{} { return []interface{}{int64(7), "z"} }}
 	litSl56  = eLit{"[5, 6]", func() interface{} { return []interface{}{int64(5), int64(6)} }}
 	litSl777 = eLit{"[7, 7, 7]", func() interface{} { return []interface{}{int64(7), int64(7), int64(7)} }}
 	litSl0   = eLit{"[]", func() interface{} { return []interface{}{} }}
@@ -427,6 +428,11 @@ func buildAlphabet() []op {
 	add("append/mixed", false, sLet{x, eAdd{u, litSl8}})
 	add("append/mixed", false, sLet{x, eAdd{u, litSl89}})
 	add("append/mixed", false, sAddEq{u, litSl8})
+	// an element without a conversion AFTER a convertible one: the append fails and
+	// nothing may have been stored (u's spare capacity is visible through t)
+	add("append/mixed-fails", false, sLet{x, eAdd{u, litSl7z}})
+	add("append/mixed-fails", false, sAddEq{u, litSl7z})
+	add("append/mixed-fails", false, sLet{x, eAdd{t, litSl7z}})
 	add("append/mixed", false, sLet{x, eAdd{t, litSl8}})
 	add("append/mixed", false, sLet{x, eAdd{b, t}})
 	add("append/mixed", false, sLet{x, eAdd{b, u}})
